@@ -66,6 +66,13 @@ def drive(sc):
         other = dict(cfg, linear_constraints={"coefficients": [[8.0, -1.0], [0.5, 0.25]], "lower_bounds": [-1.0, -1.0],
                                               "upper_bounds": [1.0, 1.0]})
         EnOptConfig.model_validate(other, context=transforms)
+    if transforms is None and not sc.get("vfree") and (v[0] + sc["tol"]) % 2 == 0:
+        # the variables section is DERIVED (model_copy) from the section of an unbounded configuration that has been used
+        from ropt.config.enopt import EnOptConfig
+        unbounded = EnOptConfig.model_validate(dict(plain_cfg, variables={"initial_values": x}))
+        plan0 = Plan(OptimizerContext(evaluator=evaluator, plugin_manager=plugin_manager()))
+        outcome_of(lambda: plan0.run_step(plan0.add_step("evaluator"), config=unbounded))
+        cfg["variables"] = unbounded.variables.model_copy(update={"lower_bounds": np.array(lb), "upper_bounds": np.array(ub)})
     if objects:
         # ... and the caller's section objects have been through a complete validation (with the same context) before
         from ropt.config.enopt import EnOptConfig
